@@ -429,7 +429,7 @@ func (e *env) checkRequest(c captured, sc *signCall, wantBody []byte, cas interf
 func main() {
 	flag.Parse()
 	r := verdict.New("C19", *tier, "exploration")
-	r.Rule = "the bundled HttpSigTransport driven with a recording HttpClient and (a) a recording signer capturing key, key id, header snapshot and body, (b) real RSA-SHA256 and HMAC-SHA256 httpsig signers over several header lists whose output is verified on what the client received; Dereference over every status 100..599 and a transport error; Deliver likewise, over payloads of several shapes (JSON, empty, nil, one byte, non-JSON bytes, non-ASCII); BatchDeliver over every combination of eleven per-recipient outcome classes (2xx, other statuses, client error, signer refusal, a URL no request can be built for) for batches of 1..3, every size 1..40 and 64 with all recipients failing, and seeded random batches of 0..64 recipients with duplicates; 8 concurrent batches + dereferences on one transport value; batches with failing recipients in sequence and at the same time on one transport value (no failure of one batch in another's error); failing sends returning while the others are held inside a client that honours the request context (no early return, no send given up); one transport used while the clock advances; several agent strings / key ids in one process; inbox and object URLs with query, fragment, user information and escapes; served bodies of 0 bytes to 200 kB read in small pieces and compared; the whole engine runs under the race detector; non-trivial = a request was captured and compared; distinct by case"
+	r.Rule = "the bundled HttpSigTransport driven with a recording HttpClient and (a) a recording signer capturing key, key id, header snapshot and body, (b) real RSA-SHA256 and HMAC-SHA256 httpsig signers over several header lists whose output is verified on what the client received; Dereference over every status 100..599 and a transport error; Deliver likewise, over payloads of several shapes (JSON, empty, nil, one byte, non-JSON bytes, non-ASCII); BatchDeliver over every combination of eleven per-recipient outcome classes (2xx, other statuses, client error, signer refusal, a URL no request can be built for) for batches of 1..3, every size 1..40 and 64 with all recipients failing, and seeded random batches of 0..64 recipients with duplicates; 8 concurrent batches + dereferences on one transport value; batches with failing recipients in sequence and at the same time on one transport value (no failure of one batch in another's error); failing sends returning while the others are held inside a client that honours the request context (no early return, no send given up); one transport used while the clock advances; several agent strings / key ids in one process; inbox and object URLs with query, fragment, user information and escapes; served bodies of 0 bytes to 200 kB read in small pieces and compared; the whole engine runs under the race detector; client and signer errors that name the whole URL, the host only, or nothing; non-trivial = a request was captured and compared; distinct by case"
 	r.Assumptions = []string{"the Digest header produced inside the pinned httpsig dependency is not judged", "the library agent string is read from what pub passes to CommonBehavior.NewTransport"}
 	key, err := rsa.GenerateKey(rand.Reader, 2048)
 	if err != nil {
